@@ -105,7 +105,7 @@ func (w Resolver) Resolve(id did.DID, _ *resolver.ResolveMetadata) (*did.Documen
 		return nil, nil, fmt.Errorf("did:web HTTP response read error: %w", err)
 	}
 	var document did.Document
-	err = document.UnmarshalJSON(data)
+	err = resolver.UnmarshalDocument(data, &document)
 	if err != nil {
 		return nil, nil, fmt.Errorf("did:web JSON unmarshal error: %w", err)
 	}
